@@ -7,6 +7,9 @@ pub assume_specification<T, F: FnOnce() -> Option<T>>[ Option::<T>::or_else ](op
     ensures opt.is_some() ==> r == opt,
             opt.is_none() ==> f.ensures((), r);
 
+pub assume_specification<T, E, F>[ Result::<T, E>::or ](r: Result<T, E>, res: Result<T, F>) -> (o: Result<T, F>)
+    ensures o == (match r { Ok(v) => Ok::<T, F>(v), Err(_) => res });
+
 // ---- primitives ---------------------------------------------------------------------------------
 // The core unit treats hash_fn / aead_enc / aead_dec / dh_pub / dh_fn as opaque functions of an algorithm id.
 // The wrapper unit (R16) reveals the definitions below: ids 1.. are the *standard* algorithms behind the names
@@ -76,27 +79,61 @@ pub uninterp spec fn other_dh_valid(id: int, sk: Seq<u8>, pk: Seq<u8>) -> bool;
 pub uninterp spec fn other_dh_pub_len(id: int) -> int;
 pub uninterp spec fn other_dh_priv_len(id: int) -> int;
 pub open spec fn ID_X25519() -> int { 1 }
+// NIST P-256 ECDH (snow's documented extension): uncompressed SEC1 public keys (65 bytes), 32-byte shared secret; id 2
+pub open spec fn ID_P256() -> int { 2 }
+pub uninterp spec fn std_p256_pub(sk: Seq<u8>) -> Seq<u8>;
+pub uninterp spec fn std_p256_ecdh(sk: Seq<u8>, pk: Seq<u8>) -> Seq<u8>;
+pub uninterp spec fn p256_valid_scalar(sk: Seq<u8>) -> bool;
+pub uninterp spec fn p256_valid_point(pk: Seq<u8>) -> bool;
 #[verifier::opaque]
-pub open spec fn dh_pub(id: int, sk: Seq<u8>) -> Seq<u8> { if id == 1 { std_x25519_base(sk) } else { other_dh_pub(id, sk) } }
+pub open spec fn dh_pub(id: int, sk: Seq<u8>) -> Seq<u8> { if id == 1 { std_x25519_base(sk) } else if id == 2 { std_p256_pub(sk) } else { other_dh_pub(id, sk) } }
 // public-key length of the DH function `id`
 #[verifier::opaque]
-pub open spec fn dh_pub_len(id: int) -> int { if id == 1 { 32 } else { other_dh_pub_len(id) } }
+pub open spec fn dh_pub_len(id: int) -> int { if id == 1 { 32 } else if id == 2 { 65 } else { other_dh_pub_len(id) } }
 #[verifier::opaque]
-pub open spec fn dh_priv_len(id: int) -> int { if id == 1 { 32 } else { other_dh_priv_len(id) } }
+pub open spec fn dh_priv_len(id: int) -> int { if id == 1 { 32 } else if id == 2 { 32 } else { other_dh_priv_len(id) } }
 #[verifier::opaque]
-pub open spec fn dh_fn(id: int, sk: Seq<u8>, pk: Seq<u8>) -> Seq<u8> { if id == 1 { std_x25519(sk, pk) } else { other_dh_fn(id, sk, pk) } }
+pub open spec fn dh_fn(id: int, sk: Seq<u8>, pk: Seq<u8>) -> Seq<u8> { if id == 1 { std_x25519(sk, pk) } else if id == 2 { std_p256_ecdh(sk, pk) } else { other_dh_fn(id, sk, pk) } }
 // whether the DH function accepts this peer public key (always true for X25519; P-256 rejects invalid points)
 #[verifier::opaque]
-pub open spec fn dh_valid(id: int, sk: Seq<u8>, pk: Seq<u8>) -> bool { if id == 1 { true } else { other_dh_valid(id, sk, pk) } }
+pub open spec fn dh_valid(id: int, sk: Seq<u8>, pk: Seq<u8>) -> bool { if id == 1 { true } else if id == 2 { p256_valid_scalar(sk) && p256_valid_point(pk) } else { other_dh_valid(id, sk, pk) } }
 
 // what a primitive *name* in a Noise protocol name stands for: every backend that provides e.g. DHChoice::Curve25519
 // must provide the same function with the same lengths (assumed contract of CryptoResolver implementations)
 pub uninterp spec fn other_dh_choice(c: crate::params::DHChoice, what: int) -> int;
 pub uninterp spec fn other_cipher_choice(c: crate::params::CipherChoice) -> int;
-pub open spec fn spec_dh_id(c: crate::params::DHChoice) -> int { match c { crate::params::DHChoice::Curve25519 => 1, _ => other_dh_choice(c, 0) } }
-pub open spec fn spec_dh_pl(c: crate::params::DHChoice) -> int { match c { crate::params::DHChoice::Curve25519 => 32, _ => other_dh_choice(c, 1) } }
-pub open spec fn spec_dh_dl(c: crate::params::DHChoice) -> int { match c { crate::params::DHChoice::Curve25519 => 32, _ => other_dh_choice(c, 2) } }
-pub open spec fn spec_dh_prl(c: crate::params::DHChoice) -> int { match c { crate::params::DHChoice::Curve25519 => 32, _ => other_dh_choice(c, 3) } }
+pub open spec fn spec_dh_id(c: crate::params::DHChoice) -> int {
+    match c {
+        crate::params::DHChoice::Curve25519 => 1,
+        #[cfg(feature = "p256")]
+        crate::params::DHChoice::P256 => 2,
+        _ => other_dh_choice(c, 0),
+    }
+}
+pub open spec fn spec_dh_pl(c: crate::params::DHChoice) -> int {
+    match c {
+        crate::params::DHChoice::Curve25519 => 32,
+        #[cfg(feature = "p256")]
+        crate::params::DHChoice::P256 => 65,
+        _ => other_dh_choice(c, 1),
+    }
+}
+pub open spec fn spec_dh_dl(c: crate::params::DHChoice) -> int {
+    match c {
+        crate::params::DHChoice::Curve25519 => 32,
+        #[cfg(feature = "p256")]
+        crate::params::DHChoice::P256 => 32,
+        _ => other_dh_choice(c, 2),
+    }
+}
+pub open spec fn spec_dh_prl(c: crate::params::DHChoice) -> int {
+    match c {
+        crate::params::DHChoice::Curve25519 => 32,
+        #[cfg(feature = "p256")]
+        crate::params::DHChoice::P256 => 32,
+        _ => other_dh_choice(c, 3),
+    }
+}
 pub open spec fn spec_hash_id(c: crate::params::HashChoice) -> int {
     match c { crate::params::HashChoice::SHA256 => 1, crate::params::HashChoice::SHA512 => 2, crate::params::HashChoice::Blake2s => 3, crate::params::HashChoice::Blake2b => 4 }
 }
